@@ -54,5 +54,18 @@ Proof. exact fhirpath_table_conditions. Qed.
 Print Assumptions C11_parse_render_min.
 Print Assumptions C11_parse_prog_render_min.
 
-(* NOT PROVED: the same statement for the full-parenthesis printer render_full, and the lexer-level statement that
-   whitespace / comment gaps do not change the token list.  These are covered by the correspondence run only. *)
+(* the fully parenthesised rendering parses back to the tree too, so both renderings denote the same tree *)
+Theorem C11_parse_render_full : forall T,
+  (p_polarity T < p_index T)%nat -> (p_polarity T < p_invoke T)%nat -> (p_index T <= S (p_invoke T))%nat ->
+  forall t rest, wf T t -> tail_ok T t rest -> nolp rest -> absorbs T 0 rest = false ->
+  exists f0, forall f, (f0 <= f)%nat -> parse_expr T f 0 (render_full t ++ rest) = Some (t, rest).
+Proof. exact parse_render_full. Qed.
+Theorem C11_renderings_agree : forall T,
+  (p_polarity T < p_index T)%nat -> (p_polarity T < p_invoke T)%nat -> (p_index T <= S (p_invoke T))%nat ->
+  forall t, wf T t -> forall a b,
+  parse_prog T (render_min T 0 t) = Some a -> parse_prog T (render_full t) = Some b -> a = b.
+Proof. exact renderings_agree. Qed.
+Print Assumptions C11_renderings_agree.
+
+(* NOT PROVED: the lexer-level statement that whitespace / comment gaps do not change the token list.  It is covered
+   by the correspondence run only (six gap decorations of every generated source). *)
